@@ -203,6 +203,31 @@ thorough ≈ 10–20 s per property.
   implementations merged into one type with a constant boolean field are analysed
   once per flag value - dead blocks are hidden from instrs/deep views/PF, the AST
   mirror compares the two specialised declarations.
+* **Round-7/8 additions.** *Specialisation of the typestate engine*: a deferred
+  function literal that tests captured boolean locals is analysed once per exit of
+  its parent, under the value the one reaching (constant) store gives each flag
+  (`deferFlagSpec`); a callee handed a constant boolean argument is analysed for
+  that value (`constBoolArgs`) - both reuse the dead-block hiding of `variants.go`;
+  *enum-result-sensitive summaries* (`constExits`: a test of a summarised helper's
+  integer result against a constant keeps the exits that can return it, minus the
+  constants earlier case tests ruled out; only along a pure comparison chain from
+  the call). *Names that moved*: generated tables `pinnedCallers` /
+  `pinnedParamTypes` (which functions called an unexported helper; the types of its
+  parameters) find a helper that was renamed *and* re-parameterised (the one new
+  function all its former callers now call) and keep parameter names attached to
+  parameter types when the order changes; a function that only loads fields, calls
+  one otherwise unused unexported helper and returns its results denotes that
+  helper (`aliasOutlinedBodies`). *Values across frames*: the parameters of a
+  literal that is started / called with arguments stand for those arguments
+  (`literalCallArg`); a driver's call of its func parameter links a literal's
+  parameter and result to the driver's frame (`closureCallSites`); a func-typed
+  field assigned one literal resolves to it; symbolic expressions gained element
+  access and induction variables. *Goroutine bodies* may be unexported named
+  functions (`go out.forward(ctx, i)`); module helpers that block only under the
+  context they are handed (`chans.RecvContext`) belong to deep views, typestates
+  and channel binding; locks taken on a `sync.Locker` parameter are renamed to
+  the caller's mutex (read mode through `RLocker()`), also for an intermediate
+  frame; two channel fields set from one value are aliases.
 * **Effects** (`effects.go`). May a function write through a slice/map argument?
   (stores, map updates, copy/append/clear/delete, sort and `slices.*` writers,
   module callees, closures; fix-point).
